@@ -461,3 +461,92 @@ impl<const K: usize> SgrStream<K> {
         }
     }
 }
+
+/// Tokeniser only: splits `ESC [ <digits ; :>* m` sequences into parameter lists without
+/// interpreting them (cheap per byte; the caller applies a completed list once).
+#[derive(Clone, Copy, Debug)]
+pub struct SgrTok<const K: usize> {
+    /// 0: between sequences, 1: after ESC, 2: inside the parameter string
+    pub stage: u8,
+    pub vals: [u16; K],
+    pub sub: [bool; K],
+    pub n: usize,
+    pub cur: u32,
+    pub cur_sub: bool,
+}
+
+#[derive(Clone, Copy, PartialEq, Eq, Debug)]
+pub enum Tok {
+    More,
+    /// a sequence just ended; `vals[..n]` / `sub[..n]` hold its parameters
+    Complete,
+    /// not SGR, or more than `K` values
+    Bad,
+}
+
+impl<const K: usize> SgrTok<K> {
+    pub fn new() -> Self {
+        SgrTok {
+            stage: 0,
+            vals: [0; K],
+            sub: [false; K],
+            n: 0,
+            cur: 0,
+            cur_sub: false,
+        }
+    }
+
+    pub fn idle(&self) -> bool {
+        self.stage == 0
+    }
+
+    pub fn feed(&mut self, b: u8) -> Tok {
+        match self.stage {
+            0 => {
+                if b == 0x1B {
+                    self.stage = 1;
+                    Tok::More
+                } else {
+                    Tok::Bad
+                }
+            }
+            1 => {
+                if b == b'[' {
+                    self.stage = 2;
+                    self.n = 0;
+                    self.cur = 0;
+                    self.cur_sub = false;
+                    Tok::More
+                } else {
+                    Tok::Bad
+                }
+            }
+            _ => match b {
+                b'0'..=b'9' => {
+                    self.cur = self.cur * 10 + (b - b'0') as u32;
+                    if self.cur > 65535 {
+                        self.cur = 65535;
+                    }
+                    Tok::More
+                }
+                b';' | b':' | b'm' => {
+                    if self.n >= K {
+                        return Tok::Bad;
+                    }
+                    self.vals[self.n] = self.cur as u16;
+                    self.sub[self.n] = self.cur_sub;
+                    self.n += 1;
+                    self.cur = 0;
+                    self.cur_sub = b == b':';
+                    if b == b'm' {
+                        self.stage = 0;
+                        Tok::Complete
+                    } else {
+                        Tok::More
+                    }
+                }
+                _ => Tok::Bad,
+            },
+        }
+    }
+}
